@@ -553,6 +553,8 @@ def spec_annot(o, r, sel=None):
             if k not in o["keep"]:
                 del attrs[k]
     for new, old in o.get("rename", {}).items():
+        if new == old:
+            continue          # an attribute renamed to its own name: nothing changes
         ok, v = get_attr(old)
         if ok:
             set_attr(new, v)
@@ -1103,6 +1105,8 @@ def gen_annot_option(rng, ds, fam):
         return dict(keep=rng.sample(keys + ["nokey"], rng.choice([1, 2, 3])))
     if fam == "rename":
         olds = rng.sample(keys, rng.choice([1, 1, 2]))
+        if rng.random() < 0.2:
+            return dict(rename={k: k for k in olds})           # renamed to its own name: must change nothing
         return dict(rename={"new_%s" % k: k for k in olds})
     if fam == "length":
         return dict(length=True)
@@ -1238,6 +1242,8 @@ def gen_annot_cases(ctx, datasets, nrandom, grid):
     # the special keys id / sequence / qualities of SetAttribute / GetAttribute
     cases.append(mk(dict(rename={"id": "n"}), w, tag="fixed:special-key-type-assertion"))
     cases.append(mk(dict(rename={"id": "k"}), w))
+    cases.append(mk(dict(rename={"k": "k"}), w, tag="fixed:rename-to-own-name-deleted-the-attribute"))
+    cases.append(mk(dict(rename={"k": "k", "n": "n"}, length=True), w))
     cases.append(mk(dict(rename={"sequence": "k"}), w, tag="fixed:special-key-type-assertion"))
     cases.append(mk(dict(rename={"s": "sequence"}), w))
     cases.append(mk(dict(rename={"i": "id"}), w))
